@@ -230,7 +230,7 @@ func runC21(c *core.Ctx) {
 				// returning the original error is fine only under errors.As(err, &BGPError) == true
 				carries := false
 				for _, ft := range core.FactsAt(be, ret) {
-					if cl, isC := core.Unparen(ft.Expr).(*ast.CallExpr); isC && ft.Truth {
+					if cl := core.CallOf(be, ft.Expr); cl != nil && ft.Truth {
 						if cal := core.Callee(be.Pkg, cl); cal != nil && cal.FullName() == "errors.As" {
 							carries = true
 						}
@@ -279,7 +279,7 @@ func runC21(c *core.Ctx) {
 					// guarded only by errors.As (and isBMP)
 					guard := false
 					for _, ft := range core.FactsAt(r, call) {
-						if cl, isC := core.Unparen(ft.Expr).(*ast.CallExpr); isC && ft.Truth {
+						if cl := core.CallOf(r, ft.Expr); cl != nil && ft.Truth {
 							if cal := core.Callee(r.Pkg, cl); cal != nil && cal.FullName() == "errors.As" {
 								guard = true
 							}
